@@ -55,20 +55,22 @@ Qed.
    result.  [msg_ok [D']]: the destination segment consists of bytes (an invariant of the builder
    model not tracked by this development's single-segment view, hence a hypothesis here). *)
 Theorem copy_then_equal : forall m f D cap rl a src v fc w' c fx,
-  msg_ok m -> hinv D -> 0 <= a -> a mod 8 = 0 -> a + 8 <= zlen D ->
+  msg_ok m -> hinv D -> bytes_ok D -> 0 <= a -> a mod 8 = 0 -> a + 8 <= zlen D ->
   wf_ptr m src -> aligned src -> caligned src -> ctag_ok m src -> den true m 0 [] src v -> cvdom v = true ->
   write_ptr f true (dstw D cap m rl) 0 a InSrc src fc = Ok w' ->
   cfg_strict c = true -> all_fixed fx ->
   exists D' cap' rl' q, w' = dstw D' cap' m rl' /\
     (exists dep rlx rlx', readPtr true [D'] rlx 0 D' a dep = (Ok q, rlx')) /\
-    (msg_ok [D'] -> forall fuel st b st',
+    (forall fuel st b st',
        equal_m fuel c fx (mkEC m [] [D'] [] false) st src q = (EOk b, st') -> b = true).
 Proof.
-  intros m f D cap rl a src v fc w' c fx Hm Hi Ha Ham Hab Hwf Hal Hcal Hctg D0 Hsd H Hs Hfx.
+  intros m f D cap rl a src v fc w' c fx Hm Hi HbD Ha Ham Hab Hwf Hal Hcal Hctg D0 Hsd H Hs Hfx.
   destruct (copy_value_ptr m f D cap rl a src v fc w' Hm Hi Ha Ham Hab Hwf Hal Hcal Hctg D0 Hsd H)
-    as (D' & cap' & rl' & -> & Hinv & (dep & rlx & q & rlx' & R & Dq)).
+    as (D' & cap' & rl' & -> & Hinv & Hbd' & (dep & rlx & q & rlx' & R & Dq)).
   exists D', cap', rl', q. split; [reflexivity|]. split; [exists dep, rlx, rlx'; exact R|].
-  intros Hmd fuel st b st' E.
+  intros fuel st b st' E.
+  assert (Hmd : msg_ok [D']).
+  { constructor; [|constructor]. split; [destruct Hinv as [_ X]; unfold maxSegmentSize; exact X|apply Hbd'; exact HbD]. }
   eapply (equal_layout_independent c fx (mkEC m [] [D'] [] false) fuel st src q b st' v v Hs Hfx); try eassumption.
   - exact (Dq 1 []).
   - apply value_eq_refl.
